@@ -205,11 +205,11 @@ Proof.
     cbn [add_inbound p_inbound p_sm_id]. rewrite Hi. split; [reflexivity|exact Hs].
   - intros Hok He. subst r. cbn [add_inbound p_inbound]. rewrite (Hz eq_refl He). reflexivity.
   - intros Hok Hb Hne. subst r. cbn [add_inbound p_sm_id].
-    destruct Ho as [[Hd _]|[(_ & _ & _ & _ & _ & He)|(_ & _ & _ & Hnb & _)]]; [exact Hd|contradiction|congruence].
+    destruct Ho as [(Hd & _)|[(_ & _ & _ & _ & _ & He)|(_ & _ & _ & Hnb & _)]]; [exact Hd|contradiction|congruence].
   - intros Hne. destruct r as [|ce pm]; [congruence|].
-    destruct Ho as [[Hd [Hi|[Hp Hi]]]|[(_ & _ & _ & Hok & _)|(H1 & H2 & _)]].
-    + right. split; assumption.
-    + left. split; [congruence|exact Hi].
+    destruct Ho as [(Hd & Hi & Hw)|[(_ & _ & _ & Hok & _)|(H1 & H2 & _)]].
+    + destruct Hw as [Hw|[Hp Hi2]]; [|left; split; [congruence|exact Hi2]].
+      destruct Hi as [Hi|[Hp Hi]]; [right; repeat split; assumption|left; split; [congruence|exact Hi]].
     + discriminate.
     + left. split; assumption.
   - apply IH.
@@ -240,11 +240,11 @@ Proof.
     (* the invariant after this connection *)
     destruct r0 as [|ce pm].
     + cbn [add_inbound p_sm_id p_inbound].
-      destruct Ho as [[Hd _]|[(_ & Hz & _ & _ & Hb & _)|(H1 & H2 & _ & Hnb & _)]].
+      destruct Ho as [(Hd & _)|[(_ & Hz & _ & _ & Hb & _)|(H1 & H2 & _ & Hnb & _)]].
       * intros Hne. congruence.
       * intros _. rewrite Hb, Hz. reflexivity.
       * intros Hne. rewrite Hnb, H2. rewrite H1 in Hne. rewrite (Hinv Hne). reflexivity.
-    + destruct Ho as [[Hd _]|[(_ & _ & _ & Hok & _)|(H1 & H2 & _)]].
+    + destruct Ho as [(Hd & _)|[(_ & _ & _ & Hok & _)|(H1 & H2 & _)]].
       * intros Hne. congruence.
       * discriminate.
       * intros Hne. rewrite H2. rewrite H1 in Hne. exact (Hinv Hne).
@@ -317,7 +317,7 @@ Proof.
     set (p2' := match r0 with Ok => add_inbound p1 (k_traffic c) | Err _ _ => p1 end) in *.
     assert (Hid : p_sm_id p2' = p_sm_id p1) by (unfold p2'; destruct r0; reflexivity).
     assert (Hcase : p_sm_id p2' <> id \/ issued (k_script c) id).
-    { destruct Ho as [[Hd _]|[(Hi & _)|(H1 & _)]].
+    { destruct Ho as [(Hd & _)|[(Hi & _)|(H1 & _)]].
       - left. rewrite Hid, Hd. intros <-. exact (Hnon Hin).
       - destruct (list_eq_dec N.eq_dec (p_sm_id p1) id) as [<-|Hd]; [right; exact Hi|left; congruence].
       - left. congruence. }
@@ -327,37 +327,40 @@ Proof.
     + exists O, c. split; [lia|]. split; [reflexivity|exact Hc].
 Qed.
 
-(* connection i presented [id] and the session was not continued (the negotiation failed, or a new
-   session was bound): [id] is not presented on any later connection j unless the server itself
-   issued that very string again on some connection i <= k < j *)
-Lemma stale_not_presented_again cfg cs p i j id h h' wi ri pi wj rj pj :
+(* connection i presented [id], the server ANSWERED (the connection was not cut where the answer
+   was awaited) and the session was not continued (the negotiation failed, or a new session was
+   bound): [id] is not presented on any later connection j unless the server itself issued
+   that very string again on some connection i <= k < j *)
+Lemma stale_not_presented_again cfg cs p i j id h h' wi ri pi wj rj pj ci :
   nth_error (run_conns cfg p cs) i = Some (wi, ri, pi) -> In (RResume id h) (reqs wi) ->
+  nth_error cs i = Some ci -> ~ unanswered (k_script ci) ->
   (ri <> Ok \/ has_bindb wi = true) ->
   (i < j)%nat ->
   nth_error (run_conns cfg p cs) j = Some (wj, rj, pj) -> In (RResume id h') (reqs wj) ->
   exists k c, (i <= k < j)%nat /\ nth_error cs k = Some c /\ issued (k_script c) id.
 Proof.
-  intros Hi Hini Hnot Hlt Hj Hinj.
+  intros Hi Hini Hci Hans Hnot Hlt Hj Hinj.
   pose proof (run_conns_resume_nonempty cfg cs p i wi ri pi h Hi) as Hnon.
   destruct (run_conns_nth cfg i cs p _ Hi) as (q & c & Hc & Hx & Hrest).
-  pose proof (connect_outcome cfg (k_dial c) (k_tls c) q (k_script c)) as Ho. cbn zeta in Ho.
+  assert (c = ci) by congruence. subst c.
+  pose proof (connect_outcome cfg (k_dial ci) (k_tls ci) q (k_script ci)) as Ho. cbn zeta in Ho.
   unfold res, outs, pst in *.
-  destruct (connect cfg (k_dial c) (k_tls c) q (k_script c)) as [[w0 r0] p1]. cbn [fst snd] in *.
+  destruct (connect cfg (k_dial ci) (k_tls ci) q (k_script ci)) as [[w0 r0] p1]. cbn [fst snd] in *.
   inversion Hx; subst wi ri pi. clear Hx.
-  set (p2 := match r0 with Ok => add_inbound p1 (k_traffic c) | Err _ _ => p1 end) in *.
+  set (p2 := match r0 with Ok => add_inbound p1 (k_traffic ci) | Err _ _ => p1 end) in *.
   assert (Hid : p_sm_id p2 = p_sm_id p1) by (unfold p2; destruct r0; reflexivity).
-  assert (Hcase : p_sm_id p2 <> id \/ issued (k_script c) id).
-  { destruct Ho as [[Hd _]|[(Hiss & _)|(_ & _ & _ & Hnb & Hres)]].
+  assert (Hcase : p_sm_id p2 <> id \/ issued (k_script ci) id).
+  { destruct Ho as [(Hd & _)|[(Hiss & _)|(_ & _ & _ & Hnb & Hres)]].
     - left. rewrite Hid, Hd. intros <-. exact (Hnon Hini).
     - destruct (list_eq_dec N.eq_dec (p_sm_id p1) id) as [<-|Hd]; [right; exact Hiss|left; congruence].
-    - exfalso. destruct Hnot as [Hnot|Hnot]; [|congruence].
-      apply Hnot. apply Hres. exists id, h. exact Hini. }
+    - exfalso. destruct (Hres (ex_intro _ id (ex_intro _ h Hini))) as [[Hok _]|[_ Hu]]; [|exact (Hans Hu)].
+      destruct Hnot as [Hnot|Hnot]; [exact (Hnot Hok)|congruence]. }
   destruct Hcase as [Hcase|Hcase].
   - replace j with (S i + (j - S i))%nat in Hj by lia. rewrite Hrest in Hj. cbn [snd] in Hj.
     destruct (never_again cfg id _ _ _ _ _ _ _ Hcase Hj Hinj) as (k & c' & Hk & Hck & Hiss).
     exists (S i + k)%nat, c'. split; [lia|]. split; [|exact Hiss].
     rewrite nth_skipn in Hck. exact Hck.
-  - exists i, c. split; [lia|]. split; [exact Hc|exact Hcase].
+  - exists i, ci. split; [lia|]. split; [exact Hc|exact Hcase].
 Qed.
 
 (* ---------- a confirmed resumption keeps the whole state ---------- *)
